@@ -62,6 +62,31 @@ func H_overlay() {
 	chunk, flushEvery, resumeAt := rt.Param("chunk"), rt.Param("flush"), rt.Param("resume")
 	old := rt.Bytes("old", nold)
 	neu := rt.Bytes("new", nnew)
+	if rt.HasParam("real") {
+		// REGIME R (128 KiB window, 8 KiB threshold): concrete pseudo-random old; new = old (cut or extended to nnew)
+		// with 3000 fresh bytes at `at`, and two symbolic bytes exactly 8192 and 8193 bytes after the fresh stretch:
+		// whether they equal the old bytes decides if the equal run reaches the threshold
+		x := uint32(31)
+		for i := range old {
+			x = x*1103515245 + 12345
+			old[i] = byte(x >> 16)
+		}
+		for i := range neu {
+			if i < nold {
+				neu[i] = old[i]
+			} else {
+				neu[i] = byte(i)
+			}
+		}
+		at := rt.Param("real")
+		for i := at; i < at+3000 && i < nnew; i++ {
+			neu[i] ^= 0x77
+		}
+		if at+3000+8193 < nnew {
+			neu[at+3000+8192] = rt.Byte("s0")
+			neu[at+3000+8193] = rt.Byte("s1")
+		}
+	}
 	if chunk <= 0 {
 		chunk = nnew + 1
 	}
